@@ -120,10 +120,17 @@ func VH_C17_Convert() {
 		dF := l.put(fbB, digest.SHA256)
 		add(types.Descriptor{MediaType: types.MediaTypeOCI1ManifestList, Digest: dF, Size: int64(len(fbB)), Annotations: map[string]string{types.AnnotRefName: vhFallbackTag(dS1)}})
 	}
-	// the fallback index of S2 (sha512 subject): absent or accurate
+	// the fallback index of S2 (sha512 subject): absent, accurate, or also listing R1
+	// (which names S1)
 	s2Listed := false
-	if vh.Bool("fallbackS2") {
-		fbB := vhRespBytes([]types.Descriptor{arts[2].desc})
+	if fb2 := vh.Choice("fallbackS2", 3); fb2 > 0 {
+		l2 := []types.Descriptor{arts[2].desc}
+		if fb2 == 2 {
+			l2 = append(l2, arts[0].desc)
+			listedS1[0] = true
+			vh.Tag("fallbackS2", "mixed-subject")
+		}
+		fbB := vhRespBytes(l2)
 		dF := l.put(fbB, digest.SHA256)
 		add(types.Descriptor{MediaType: types.MediaTypeOCI1ManifestList, Digest: dF, Size: int64(len(fbB)), Annotations: map[string]string{types.AnnotRefName: vhFallbackTag(dS2)}})
 		s2Listed = true
